@@ -102,6 +102,26 @@ def search_lo(chk, r, n):
         sample = dict(kind=kind, flavor=flname, process=process, projectile=proj, x=x, Q2=Q2, node=k, nf=nf, theory=th_kw, obs=ob_kw, maxdiff=d)
         chk.search_case("lo_operator_vs_pdg", d <= 1e-9 * scale, what=f"LO {kind}_{flname} {process} {proj} operator != x*w*delta", data=sample, sample=sample, nontrivial=bool(np.abs(exp).max() > 0))
 
+    # the two end nodes of the grid.  x on the lowest node is an ordinary request (p_0(x_0) = 1); at x = 1
+    # the code's "empty domain" exit (convolution point >= 1 - 1e-10) also drops the delta term: known
+    # finding F29
+    for k, tag in ((0, "the first grid node"), (len(grid) - 1, "the last grid node")):
+        x = float(grid[k])
+        t = cards.theory(PTO=0, FNS="ZM-VFNS")
+        o = cards.obs({"F2_light": [dict(x=x, Q2=20.0)]}, prDIS="EM", ProjectileDIS="electron", interpolation_xgrid=grid)
+        try:
+            op = realrun.run(t, o)["F2_light"][0].orders[(0, 0, 0, 0)][0]
+        except Exception as e:  # noqa
+            chk.search_case("lo_operator_at_end_nodes", False, what=f"LO F2_light EM x = {x!r} ({tag}): {type(e).__name__}: {e}"[:200], data=dict(x=x))
+            continue
+        exp = np.zeros_like(op)
+        for q_ in (1, 2, 3, 4):
+            for s_ in (1, -1):
+                exp[realrun.BASIS.index(s_ * q_), k] = x * (4.0 / 9.0 if q_ % 2 == 0 else 1.0 / 9.0)
+        d = float(np.abs(op - exp).max())
+        zero = bool(np.all(op == 0))
+        chk.search_case("lo_operator_at_end_nodes", d <= 1e-9, what=f"LO F2_light EM x = {x!r} ({tag}): LO operator is {'zero' if zero else 'not x*w*delta'} (expected x*e_q^2 on node {k}; maxdiff {d:.3g})", data=dict(x=x, node=k, maxdiff=d, all_zero=zero), sample=dict(x=x, node=k, maxdiff=d))
+
 
 def run(tier):
     chk = common.Check("C02", tier)
@@ -115,5 +135,6 @@ def run(tier):
         "spec formulas (PDG NC weights, CKM sums) are transcribed by hand in Properties/C02.lean and, independently, in harness/checks/c02.py",
         "model arithmetic is exact on Rat; IEEE rounding of the Python arithmetic is outside the model (tolerance 1e-10 relative to the largest term)",
         "the Kronecker-delta property of the interpolation basis at grid nodes is C19's theorem; here it is observed on the real operator",
+        "known finding F29: at the node x = 1 the LO operator is 0 (conv.convolution's empty-domain exit drops the delta term too); reported as KNOWN-FINDING, the lowest node must pass",
     ]
     return chk
